@@ -82,5 +82,33 @@ pub fn generate(seed: u64, thorough: bool, sink: &mut Sink) -> Vec<String> {
     "x := 2; y := x - 7", "x := [1 2 3]; y := x'", "x := [1 2; 3 4] ** [5 6; 7 8]", "x := math/sin(0.0)", "x := math/cos(0.0)", "x := stats/sum/row([1 2 3])", "x := combinatorics/n-choose-k(10, 2)",
     "x := [1 2 3]; y := x[2]", "x := 1 + 2 * 3", "x := (1 + 2) * 3", "x := 7 % 4", "x := 2 ^ 10", "x := \"a\" == \"b\"", "x := true && false", "x := true || false", "x := true xor true"];
   push("literals-and-calls", lits.iter().map(|s| s.to_string()).collect(), sink);
+  // strings and names of every byte length per character (constants carry a byte length), and
+  // concatenations of every arity (each arity up to four has an instruction form of its own)
+  let mut rng = Rng::new(seed ^ 0xC06);
+  let mut extra: Vec<String> = vec![];
+  let chars = ["a", "b", "z", " ", "é", "ö", "π", "Δ", "日", "本", "語", "😀", "🤖", "ß", "0", "_"];
+  for _ in 0..(if thorough { 600 } else { 80 }) {
+    let long = rng.chance(1, 8); let len = rng.below(if long { 300 } else { 9 }) as usize;
+    let st: String = (0..len).map(|_| *rng.pick(&chars)).collect();
+    match rng.below(4) {
+      0 => extra.push(format!("\"{}\"", st)),
+      1 => extra.push(format!("x := \"{}\"", st)),
+      2 => { let k2 = 1 + rng.below(5); let st2: String = (0..k2).map(|_| *rng.pick(&chars)).collect(); extra.push(format!("x := [\"{}\" \"{}\"]", st, st2)); }
+      _ => { let k3 = 1 + rng.below(3); let name: String = (0..k3).map(|_| *rng.pick(&["π", "Δ", "é", "x", "y", "日", "α", "ß"])).collect(); extra.push(format!("{} := {}; q := {} + 1", name, 1 + rng.below(9), name)); }
+    }
+  }
+  for s in ["\"héllo\"", "x := \"日本語\"", "x := \"aé\"", "π := 3", "Δx := 1; y := Δx + 1", "x := \"\"", "x := \"😀\"", "x := [\"héllo\" \"wörld\"]"] { extra.push(s.to_string()); }
+  for k in 1..=7usize {
+    let v = |i: usize| (10 * i + 1).to_string();
+    extra.push(format!("[{}]", (1..=k).map(|i| v(i)).collect::<Vec<_>>().join("; ")));
+    extra.push(format!("[{}]", (1..=k).map(|i| v(i)).collect::<Vec<_>>().join(" ")));
+    extra.push(format!("x := [{}]", (1..=k).map(|i| format!("{} {}", v(i), v(i + 20))).collect::<Vec<_>>().join("; ")));
+    extra.push(format!("a := [1 2]; b := [3 4]; c := [5 6]; x := [{}]", (0..k).map(|i| ["a", "b", "c"][i % 3]).collect::<Vec<_>>().join("; ")));
+    extra.push(format!("a := [1; 2]; b := [3; 4]; c := [5; 6]; x := [{}]", (0..k).map(|i| ["a", "b", "c"][i % 3]).collect::<Vec<_>>().join(" ")));
+    extra.push(format!("x := [{}]", (1..=k).map(|i| format!("{}u8", i)).collect::<Vec<_>>().join("; ")));
+    extra.push(format!("x := [{}]", (1..=k).map(|i| if i % 2 == 0 { "true" } else { "false" }).collect::<Vec<_>>().join("; ")));
+  }
+  push("strings-names-arity", extra, sink);
   out
 }
+
